@@ -126,6 +126,9 @@ type local struct {
 	counters map[string]int64
 	distinct map[string]struct{}
 	evals    int
+	// the slice an earlier Encode of this chunk returned (a different value of the same type, same codec) and a
+	// private copy of what it held then: a result must stay what it was while the caller keeps it
+	heldWire, heldCopy []byte
 }
 
 func (lc *local) count(k string) { lc.counters[k]++ }
@@ -271,6 +274,16 @@ func (rn *runner) runCase(lc *local, p *pair, vi int, seed int64) {
 			}
 			if !bytes.Equal(first, wire) {
 				stab = append(stab, stabFinding{"second-encode-differs", map[string]interface{}{"first_bytes": hex.EncodeToString(first), "first_bytes_after_second_encode": hex.EncodeToString(wire)}})
+			}
+			// (c) the bytes returned for an EARLIER value must not have changed under the caller's hands
+			if lc.heldWire != nil && !bytes.Equal(lc.heldWire, lc.heldCopy) {
+				stab = append(stab, stabFinding{"earlier-result-overwritten", map[string]interface{}{
+					"earlier_result_when_returned": hex.EncodeToString(lc.heldCopy), "earlier_result_now": hex.EncodeToString(lc.heldWire), "after_encoding": hex.EncodeToString(first)}})
+				lc.heldWire, lc.heldCopy = nil, nil
+			}
+			if err == nil && len(wire) > 0 && (lc.heldWire == nil || !bytes.Equal(first, lc.heldCopy)) {
+				lc.heldWire, lc.heldCopy = wire, first
+				lc.count("encode_results_held_across_the_next_encodes")
 			}
 		}
 		if !panicked && err == nil {
